@@ -122,7 +122,13 @@ func rtBuild(c Sx, caching bool) *rtRouter {
 					ok = false
 				}
 			}()
-			rr.r.AddNamed(name, d.List[1].Str(), h, d.List[0].Strs()...)
+			ms := d.List[0].Strs()
+			if len(ms) == 1 && i%3 == 1 && h != nil && rpShortcut(rr.r, ms[0]) != nil {
+				// the per-method shortcut, named afterwards: the same registration
+				rpShortcut(rr.r, ms[0])(d.List[1].Str(), h).NamedTo(name, rr.r)
+				return true
+			}
+			rr.r.AddNamed(name, d.List[1].Str(), h, ms...)
 			return true
 		}()
 		if ok {
